@@ -50,6 +50,7 @@ type Input struct {
 	Key   string  // name#seq
 	Kind  string  // u64,i64,int,byte,bool,bytes,digest
 	Terms []*Term // one term for scalars, n byte terms for bytes
+	Wide  *Term   // digest inputs: the single wide variable the bytes are slices of
 }
 
 // Event is a recorded trace event.
